@@ -255,7 +255,7 @@ class C03(PropBase):
                 x = copy.deepcopy(w)
             if step["op"] == "unmarshal" and src in ("corrupt", "other", "clean") and rng.random() < 0.4:
                 rr = rng.random()
-                txt = hist.json_text(x) if rr < 0.65 else (hist.repr_text(x) if rr < 0.8 else hist.literal_keys_text(x))
+                txt = hist.json_text(x) if rr < 0.6 else (hist.repr_text(x) if rr < 0.72 else hist.literal_keys_text(x))
                 if txt is not None:
                     x = hist.carry(txt, rng.choice(hist.CARRIERS))
                     ops.append("as-text")
